@@ -2,7 +2,7 @@
 from ..ir import AnalysisBroken, strip_targs, qmatch
 from ..graph import Graph
 from ..expr import access_path, path_str, held_locks, reaching_defs, norm_cond, origins, leaves, defs_in_node
-from .common import strip_casts, short, comparison, FLIP, callbacks_never_stop, loops_over, subtree_through_locals
+from .common import strip_casts, short, comparison, FLIP, callbacks_never_stop, loops_over, subtree_through_locals, once_init
 from . import c06, c08
 
 UNITS = ['sdk/src/metrics/state/observable_registry.cc', 'sdk/src/metrics/async_instruments.cc',
@@ -136,28 +136,73 @@ def rule_r3(ck, prog, rule='C17.R3'):
             f = [x for x in prog.funcs.values() if x.cls == rec['qn'] and x.name == name][0]
             g = Graph(prog, f, inline=None, sync_lambdas=False)
             pid = f.params[0]['id']
-            conds = [n for n in f.nodes if n['k'] == 'if']
-            ok = len(conds) == 1
-            why = 'shape not recognised'
-            if ok:
-                c = comparison(f, conds[0]['cnd'])
-                if c:
-                    op, l, r = c
-                    def who(idx):
-                        refs = [f.nodes[i] for i in f.subtree(idx) if f.nodes[i]['k'] == 'ref' and f.nodes[i].get('id') == pid]
-                        return 'arg' if refs else 'this'
-                    lw, rw = who(l), who(r)
-                    if lw == 'arg':
-                        op, lw, rw = FLIP[op], rw, lw
-                    # now: this op arg
-                    then_w = who(conds[0]['th'])
-                    else_w = who(conds[0]['el']) if conds[0].get('el') is not None else None
-                    ok = (lw, rw) == ('this', 'arg') and ((op == '>' and then_w == 'this' and else_w == 'arg') or (op == '<=' and then_w == 'arg' and else_w == 'this'))
-                    why = 'the receiver\'s value wins on "%s" (ties %s)' % (op, 'go to the receiver' if op in ('>=',) else 'handled wrongly')
-                else:
-                    ok = False
+            # scenario table over the comparison of the two sample timestamps (receiver later / equal / earlier): the comparison is
+            # pinned, the feasible returns are collected and the point data each of them is built from is followed to its owner
+            from ..symb import explore_pinned
+
+            def who(idx):
+                refs = [f.nodes[i] for i in f.subtree(idx) if f.nodes[i]['k'] == 'ref' and f.nodes[i].get('id') == pid]
+                return 'arg' if refs else 'this'
+            cmps = []
+            for n in f.nodes:
+                c = comparison(f, n['i'])
+                if c and c[0] in ('<', '<=', '>', '>=') and {who(c[1]), who(c[2])} == {'this', 'arg'}:
+                    op = c[0] if who(c[1]) == 'this' else FLIP[c[0]]
+                    cmps.append((n['i'], op))      # this <op> arg
+            TRUTH = {'gt': {'>': True, '>=': True, '<': False, '<=': False}, 'eq': {'>': False, '>=': True, '<': False, '<=': True},
+                     'lt': {'>': False, '>=': False, '<': True, '<=': True}}
+
+            def owner(idx, pins, depth=0):
+                n = once_init(f, idx)
+                if depth > 10:
+                    return {'?'}
+                if n['k'] == 'this' or (n['k'] == 'unop' and n['op'] == '*' and strip_casts(f, n['e'])['k'] == 'this'):
+                    return {'this'}
+                if n['k'] == 'ref' and n.get('id') == pid:
+                    return {'arg'}
+                if n['k'] == 'cond':
+                    from ..symb import eval3
+                    env = {}
+                    cn = once_init(f, n['cnd'])
+                    t = eval3(f, cn['i'], env, pins) if 'i' in cn else None
+                    if t is True:
+                        return owner(n['a'], pins, depth + 1)
+                    if t is False:
+                        return owner(n['b'], pins, depth + 1)
+                    return owner(n['a'], pins, depth + 1) | owner(n['b'], pins, depth + 1)
+                if n['k'] == 'call':
+                    last = strip_targs(n.get('c', '')).rsplit('::', 1)[-1]
+                    if last == 'ToPoint' and n.get('obj') is not None:
+                        return owner(n['obj'], pins, depth + 1)
+                    if last == 'ToPoint' and n.get('obj') is None:
+                        return {'this'}
+                    args = [a for a in n.get('args', []) if a is not None and a >= 0]
+                    if len(args) == 1 and n.get('obj') is None:
+                        return owner(args[0], pins, depth + 1)      # nostd::get<...>(x), std::move(x)
+                if n['k'] == 'construct' and len([a for a in n.get('args', []) if a is not None and a >= 0]) == 1:
+                    return owner([a for a in n['args'] if a is not None and a >= 0][0], pins, depth + 1)
+                if n['k'] == 'member' and n.get('base') is not None:
+                    return owner(n['base'], pins, depth + 1)
+                return {'?'}
+            table = {}
+            for scen in ('gt', 'eq', 'lt'):
+                pins = {ni: TRUTH[scen][op] for (ni, op) in cmps}
+                rets_, _ = explore_pinned(g, pins)
+                got = set()
+                for (ri, _v, _e) in rets_:
+                    if ri is None:
+                        got.add('?')
+                        continue
+                    news = [f.nodes[k] for k in f.subtree(f.nodes[ri]['e']) if f.nodes[k]['k'] == 'new']
+                    init = f.nodes[news[0]['init']] if news and news[0].get('init') is not None else None
+                    a0 = [a for a in (init or {}).get('args', []) if a is not None and a >= 0]
+                    got |= owner(a0[0], pins) if a0 else {'?'}
+                table[scen] = got
+            ok = bool(cmps) and table == {'gt': {'this'}, 'eq': {'arg'}, 'lt': {'arg'}}
+            why = 'receiver later -> %s, equal timestamps -> %s, receiver earlier -> %s' % tuple('|'.join(sorted(table[k_])) for k_ in ('gt', 'eq', 'lt'))
+            conds = [f.nodes[cmps[0][0]]] if cmps else []
             ck.verdict(ok, rule, f, '%s-tie-break' % name.lower(), conds[0] if conds else None,
-                       'receiver only on a strictly later timestamp, otherwise the argument' if ok else
+                       'receiver only on a strictly later timestamp, otherwise the argument (scenario table over the timestamp comparison)' if ok else
                        '%s::%s: %s: on equal timestamps the older/receiver value is reported instead of the most recent one' % (cls.rsplit('::', 1)[-1], name, why))
         ty = 'long' if 'Long' in cls else 'double'
         f = [x for x in prog.funcs.values() if x.cls == rec['qn'] and x.name == 'Aggregate' and x.params and x.params[0]['t'] == ty][0]
